@@ -11,8 +11,39 @@ fn group_json(g: &TokenGroup) -> Value {
     }
 }
 
+#[cfg(feature = "verif")]
+fn group_from(v: &Value) -> Result<TokenGroup, String> {
+    if let Some(n) = v.get("Full").and_then(|x| x.as_u64()) {
+        return Ok(TokenGroup::Full(n as usize));
+    }
+    if let Some(n) = v.get("Empty").and_then(|x| x.as_u64()) {
+        return Ok(TokenGroup::Empty(n as usize));
+    }
+    let subs = v.get("Nested").and_then(|x| x.as_array()).ok_or("group")?;
+    Ok(TokenGroup::Nested(subs.iter().map(group_from).collect::<Result<Vec<_>, _>>()?))
+}
+
 pub fn dispatch(op: &str, req: &Value) -> Result<Value, String> {
     match op {
+        #[cfg(feature = "verif")]
+        "sparse_coo_trees" => {
+            // groupings given as trees (arbitrary nesting depth)
+            let agg = if req["agg"].as_str() == Some("Sum") {
+                text_utils::tokenization::GroupAggregation::Sum
+            } else {
+                text_utils::tokenization::GroupAggregation::Mean
+            };
+            let mut owned = vec![];
+            for t in req["trees"].as_array().ok_or("trees")? {
+                let gs = t.as_array().ok_or("tree")?.iter().map(group_from).collect::<Result<Vec<_>, _>>()?;
+                owned.push((gs, agg));
+            }
+            let lengths: Vec<usize> = req["lengths"].as_array().ok_or("lengths")?.iter().map(|x| x.as_u64().unwrap_or(0) as usize).collect();
+            let groupings: Vec<_> = owned.iter().collect();
+            let sc = token_groups_to_sparse_coo_matrix(&groupings, &lengths).map_err(|e| e.to_string())?;
+            let (idx, shape, values, size, gl) = text_utils::verif_hooks::sparse_coo_parts(&sc);
+            Ok(json!({"coo": {"indices": idx, "shape": [shape.0, shape.1], "values": values, "size": size, "group_lengths": gl}}))
+        }
         #[cfg(feature = "verif")]
         "sparse_coo" => {
             let tok = crate::ops11::build(&req["shape"])?;
